@@ -166,7 +166,20 @@ def r2_per_block_lists(idx, r):
                           msg=f"entries are stored under `{norm(key)[:60]}`, which names nothing of the enclosing loop over `{norm(lp_.iter)[:50]}`: lists of two components with the "
                               "same modification name share one key, the later one overwrites the earlier and a list of the wrong length escapes the check")
     lp = next((x for x in chk.node.body if isinstance(x, ast.For) and norm(x.iter) == "paramsToCheck.items()"), None)
-    ok = lp is not None and any(isinstance(s, ast.If) and norm(s.test) == "len(self.blocks) != len(blockVals)" and always_exits(s.body) and any(isinstance(y, ast.Raise) for y in s.body) for s in lp.body)
+    def _lengths_differ(t, pol):  # the condition says len(self.blocks) != len(blockVals), however it is written
+        while isinstance(t, ast.UnaryOp) and isinstance(t.op, ast.Not):
+            t, pol = t.operand, not pol
+        if not (isinstance(t, ast.Compare) and len(t.ops) == 1 and isinstance(t.ops[0], (ast.Eq, ast.NotEq)) and {norm(t.left), norm(t.comparators[0])} == {"len(self.blocks)", "len(blockVals)"}):
+            return False
+        return pol == isinstance(t.ops[0], ast.NotEq)
+    ok = False
+    if lp is not None:
+        from ..flow import path_conditions as _pc
+        for y in walk_local(lp):
+            if isinstance(y, ast.Raise):
+                pcs = [(t, p_) for t, p_ in _pc(chk.node, y)]
+                inner = [(t, p_) for t, p_ in pcs if any(t is z for z in ast.walk(lp))]  # conditions that stand inside the loop
+                ok = ok or (len(inner) == 1 and _lengths_differ(*inner[0]))
     r.require(ok, "check:unequal-length-raises", chk, msg="a list whose length differs from the number of blocks must raise")
     cs = ab.methods["construct"]
 
